@@ -481,6 +481,10 @@ func checkC09(prop, tier string) int {
 	var samples []any
 	for i, r := range results {
 		if r.Crashed || r.Err != "" {
+			if v := crashViolation(pool, "C09", jobs[i], r); v != nil {
+				viols = append(viols, *v)
+				continue
+			}
 			infra++
 			fmt.Fprintf(os.Stderr, "INFRA: c09 job %d (%s): %s %s\n", i, metas[i].fam, r.Err, tail(r.Stderr, 500))
 			continue
